@@ -193,12 +193,11 @@ func (b *Body) applyContract(v ssa.Value, con *FnContract, key string, sig *type
 			ft.shapeFail(r, fmt.Errorf("at call to %s: %v", key, err))
 			continue
 		}
-		tags := r.Tags
-		if len(tags) == 0 {
-			tags = ft.safetyTags()
-		}
-		if len(tags) == 0 && ft.con != nil {
-			tags = ft.con.Tags
+		// a violated callee precondition invalidates every proof of the caller
+		// that uses the callee's postcondition
+		tags := unionTags(r.Tags, ft.allTags())
+		if len(r.Tags) == 0 {
+			tags = unionTags(tags, ft.safetyTags())
 		}
 		name := "pre:" + shortKey(key)
 		if r.Name != "" {
